@@ -698,6 +698,10 @@ func genPassCase(t *rapid.T) PassCase {
 	for i := 0; i < n; i++ {
 		if rapid.Bool().Draw(t, "unknown") {
 			name := "X-" + genFromAlphabet(t, "xn", "ABCabc019-", 1, 6)
+			if rapid.IntRange(0, 5).Draw(t, "goName") == 0 {
+				// ordinary field names that coincide with Go member names of library types
+				name = rapid.SampledFrom([]string{"Epoch", "Revision", "Values", "Order", "Relations", "ABI", "OS", "CPU", "Paragraph", "Filename", "Hash", "Algorithm"}).Draw(t, "goNameV")
+			}
 			if usedUnknown[name] {
 				continue
 			}
@@ -827,9 +831,19 @@ var specC09Pass = Register(&Spec[PassCase]{
 		if _, ok := cur["Installed-Size"]; !ok {
 			cur["Installed-Size"] = "0" // an int field is always rendered
 		}
+		orderBefore := append([]string{}, x.Paragraph.Order...)
 		text, err := marshalToText(&x)
 		if err != nil {
 			return errf("Marshal after changes failed: %v (document %q)", err, doc)
+		}
+		// marshalling is a read-only operation: the same struct gives the same text again, and the
+		// embedded Paragraph it carries is left as it was
+		text2, err := marshalToText(&x)
+		if err != nil || text2 != text {
+			return errf("marshalling the same struct twice gives different text: %q then %q (err %v)", text, text2, err)
+		}
+		if !strSliceEq(x.Paragraph.Order, orderBefore) {
+			return errf("Marshal modified the struct's embedded Paragraph: Order %q became %q", orderBefore, x.Paragraph.Order)
 		}
 		out, err := paraOfText(text)
 		if err != nil {
